@@ -1,26 +1,50 @@
 /-
-`impl Display for LinearizationError` (linearizer.rs): the message templates and the rendering of the
-`variables` payload of `MissingFiniteBounds` (`"none identified"` for an empty list, otherwise the names joined
-with `", "`).  The texts of the payloads the model does not carry — the offending expression, the requirement
-description and the two derived bounds — are parameters.  Import-free.
+`impl Display for LinearizationError` (linearizer.rs): the message templates (`LinErr.template`, the `write!` format
+strings — `Props.C08.error_templates_are_the_rust_ones` compares them with the ones `tools/extract.py` reads from the
+Rust source), the arguments (`LinErr.args`; the `variables` payload of `MissingFiniteBounds` is rendered as
+`"none identified"` for an empty list, otherwise the names joined with `", "`) and `format!`'s substitution of
+successive `{}` (`fill`).  The texts of the payloads the model does not carry — the offending expression, the
+requirement description and the two derived bounds — are parameters.  Import-free.
 -/
 import Rooc.Linearize
 namespace Rooc
 namespace Lin
 
-def LinErr.text (expr requirement lower upper : String) : LinErr → String
-  | .nonLinear => "Non linear expression: \"" ++ expr ++ "\""
-  | .divisionByZero => "Division by zero in expression: \"" ++ expr ++ "\""
-  | .emptyAggregation kind => "Numeric " ++ kind ++ " aggregation requires at least one operand"
-  | .varAlreadyDeclared name => "Variable \"" ++ name ++ "\" already declared"
-  | .unimplemented => "Unimplemented expression: \"" ++ expr ++ "\""
-  | .nonBinaryLogicOperand => "Logic operands must be boolean values, got: \"" ++ expr ++ "\""
-  | .missingFiniteBounds vars =>
-    let variables := if vars.isEmpty then "none identified" else ", ".intercalate vars
-    "Cannot linearize \"" ++ expr ++ "\" in " ++ requirement ++ " with derived bounds [" ++ lower ++ ", " ++ upper ++
-      "]. Variables without finite bounds: " ++ variables ++
-      ". Declare finite bounds or add constraints from which finite bounds can be inferred"
+/-- replace the successive `{}` of the template by the arguments (`format!` with positional arguments). -/
+def fillAux : List Char → List String → List Char
+  | '{' :: '}' :: rest, a :: as => a.toList ++ fillAux rest as
+  | c :: rest, as => c :: fillAux rest as
+  | [], _ => []
+
+def fill (template : String) (args : List String) : String := String.ofList (fillAux template.toList args)
+
+def LinErr.template : LinErr → String
+  | .nonLinear => "Non linear expression: \"{}\""
+  | .divisionByZero => "Division by zero in expression: \"{}\""
+  | .emptyAggregation _ => "Numeric {} aggregation requires at least one operand"
+  | .varAlreadyDeclared _ => "Variable \"{}\" already declared"
+  | .unimplemented => "Unimplemented expression: \"{}\""
+  | .nonBinaryLogicOperand => "Logic operands must be boolean values, got: \"{}\""
+  | .missingFiniteBounds _ =>
+    "Cannot linearize \"{}\" in {} with derived bounds [{}, {}]. Variables without finite bounds: {}. Declare finite bounds or add constraints from which finite bounds can be inferred"
   | .fuel => "fuel"
+
+def LinErr.args (expr requirement lower upper : String) : LinErr → List String
+  | .nonLinear | .divisionByZero | .unimplemented | .nonBinaryLogicOperand => [expr]
+  | .emptyAggregation kind => [kind]
+  | .varAlreadyDeclared name => [name]
+  | .missingFiniteBounds vars =>
+    [expr, requirement, lower, upper, if vars.isEmpty then "none identified" else ", ".intercalate vars]
+  | .fuel => []
+
+def LinErr.text (expr requirement lower upper : String) (e : LinErr) : String :=
+  fill e.template (e.args expr requirement lower upper)
+
+/-- the templates in the order of the Rust enum. -/
+def linErrTemplates : List String :=
+  [LinErr.template .nonLinear, LinErr.template .divisionByZero, LinErr.template (.emptyAggregation ""),
+   LinErr.template (.varAlreadyDeclared ""), LinErr.template .unimplemented, LinErr.template .nonBinaryLogicOperand,
+   LinErr.template (.missingFiniteBounds [])]
 
 end Lin
 end Rooc
